@@ -182,7 +182,7 @@ claim("C19",
       "Rocq proof (forallb/existsb lemmas over regenerated legal sets) + malformed-input differential stream",
       "DESIGN.md section 6 C19")
 claim("C16",
-      "Theorems (Coq, unbounded): the hex payload decodes to the exact bytes for every byte string; the PNG parser returns "
+      "Theorems (Coq, unbounded): the hex payload decodes to the exact bytes for every byte string (hence is injective); the PNG parser returns "
       "the big-endian dimensions after any chunk header; the JPEG scanner returns the first start-of-frame's dimensions "
       "and skips every other segment by its declared length; display size = int(inches x 1440); sizes are positional "
       "with the last value reused. Against the implementation: picture destinations of the parsed output — payload "
